@@ -81,8 +81,9 @@ CHECKS = {
         "engine": "rpcsim", "level": "fault_enumeration",
         "budget": {"quick": 40, "thorough": 1200},
         "rule": "each evaluation is one base scenario (seed) together with its complete sweep: every transport-operation index x fault kind, and sampled steps x {close, close twice, cancel}; non-trivial = at least one fault fired; distinct = distinct hashes of the base schedule combined with the schedules of all its faulted re-runs; coverage.probes.sweep_cases counts the individual faulted runs",
-        "faults": ["newmsg_err", "send_err", "send_stall", "recv_err", "recv_eof", "close", "close_again", "cancel"],
+        "faults": ["newmsg_err", "send_err", "send_stall", "recv_err", "recv_eof", "short_write", "write_err_n0", "read_err", "eof", "close", "close_again", "cancel"],
         "params": {"mode": "sweep"},
+        "watchdog_s": 900,
         "coverage_extra": {"explanation": "exhaustive is per scenario: all transport operation indices of the fault-free run are swept (probes.sweep_cases / sweep_scenarios); scenarios themselves are sampled"},
     },
     "C07": {
